@@ -291,7 +291,8 @@ def _weighted_estimators(ck: Checker, prog: Program, rule: str):
     NAN = sp.nan
 
     def case(l, lit):
-        ls = literals(l)
+        # a literal about other quantities cannot be this one (cheap pre-filter before the symbolic comparison)
+        ls = [x for x in literals(l) if getattr(x, "free_symbols", None) == lit.free_symbols]
         if any(same_rel(x, lit) for x in ls):
             return True
         from ..pathtable import negate
